@@ -3,6 +3,9 @@
 #include <AIToolbox/Factored/Utils/Core.hpp>
 #include <AIToolbox/Factored/Utils/FactoredMatrix.hpp>
 #include <AIToolbox/Factored/Utils/BayesianNetwork.hpp>
+#include <AIToolbox/Factored/Bandit/Model.hpp>
+#include <AIToolbox/Factored/Bandit/FlattenedModel.hpp>
+#include <tuple>
 #include "vio.hpp"
 using namespace AIToolbox::Factored;
 using AIToolbox::Vector;
@@ -98,8 +101,98 @@ static bool ddnCase(const std::string & kind, vio::Cursor & c, vio::Out & o) {
     return false;
 }
 
+// ---- FactoredMatrix2D ----
+static BasisMatrix readBM(vio::Cursor & c) {
+    BasisMatrix b; b.tag = readFactors(c); b.actionTag = readFactors(c);
+    size_t rows = c.nextSize(), cols = c.nextSize();
+    b.values.resize(rows, cols);
+    for (size_t r = 0; r < rows; ++r) for (size_t k = 0; k < cols; ++k) b.values(r, k) = c.nextDouble();
+    return b;
+}
+static FactoredMatrix2D readFM(vio::Cursor & c) {
+    FactoredMatrix2D fm; size_t n = c.nextSize();
+    for (size_t i = 0; i < n; ++i) fm.bases.push_back(readBM(c));
+    return fm;
+}
+static void outFM(vio::Out & o, const FactoredMatrix2D & fm) {
+    o << fm.bases.size();
+    for (auto & b : fm.bases) {
+        o.list(b.tag); o.list(b.actionTag); o << (size_t) b.values.rows() << (size_t) b.values.cols();
+        for (long r = 0; r < b.values.rows(); ++r) for (long k = 0; k < b.values.cols(); ++k) o << (double) b.values(r, k);
+    }
+}
+
+// deterministic "distribution" for the flattened bandit: always its mean
+struct ConstDist {
+    using result_type = double;
+    double v;
+    ConstDist(double x) : v(x) {}
+    template <typename G> double operator()(G &) const { return v; }
+    template <typename G> double operator()(G &) { return v; }
+};
+
+static bool matrixCase(const std::string & kind, vio::Cursor & c, vio::Out & o) {
+    if (kind == "facout") {         // space fill n id_1 … id_n : the SAME buffer is reused for all ids
+        Factors space = readFactors(c); size_t fill = c.nextSize();
+        Factors buf(space.size(), fill);
+        size_t n = c.nextSize();
+        for (size_t i = 0; i < n; ++i) {
+            size_t id = c.nextSize();
+            toFactors(space, id, &buf);
+            o.list(buf); o << toIndex(space, buf);
+        }
+        return true;
+    }
+    if (kind == "flatb") {          // A ngroups {tag means}* n a_1 … a_n : FlattenedModel::sampleR on a sequence of pulls
+        Action A = readFactors(c);
+        size_t ng = c.nextSize();
+        std::vector<PartialKeys> groups; std::vector<AIToolbox::Bandit::Model<ConstDist>> arms;
+        for (size_t g = 0; g < ng; ++g) {
+            groups.push_back(readFactors(c));
+            auto means = c.nextDoubles();
+            std::vector<std::tuple<double>> params;
+            for (double m : means) params.emplace_back(m);
+            arms.emplace_back(params);
+        }
+        Bandit::Model<ConstDist> bandit(A, groups, arms);
+        Bandit::FlattenedModel<ConstDist> flat(bandit);
+        o << flat.getA();
+        size_t n = c.nextSize();
+        for (size_t i = 0; i < n; ++i) o << flat.sampleR(c.nextSize());
+        return true;
+    }
+    if (kind == "fm") {             // op S A fm args -> resulting bases, flat values at every (s, a)
+        std::string op = c.next();
+        Factors S = readFactors(c), A = readFactors(c);
+        FactoredMatrix2D fm = readFM(c);
+        const size_t NS = factorSpace(S), NA = factorSpace(A);
+        if (op == "getw") {
+            Vector w = readVector(c);
+            o << NS * NA;
+            for (size_t i = 0; i < NS; ++i) for (size_t j = 0; j < NA; ++j)
+                o << fm.getValue(S, A, toFactors(S, i), toFactors(A, j), w);
+            return true;
+        }
+        if (op == "plus")        { BasisMatrix b = readBM(c); plusEqual(S, A, fm, b); }
+        else if (op == "plusrv") { BasisMatrix b = readBM(c); plusEqual(S, A, fm, std::move(b)); }
+        else if (op == "plusfm") { FactoredMatrix2D r = readFM(c); plusEqual(S, A, fm, r); }
+        else if (op == "plusfmrv") { FactoredMatrix2D r = readFM(c); plusEqual(S, A, fm, std::move(r)); }
+        else if (op == "scale")  { double v = c.nextDouble(); fm *= v; }
+        else if (op == "scalew") { Vector w = readVector(c); fm *= w; }
+        else if (op == "scalewc") { Vector w = readVector(c); fm = fm * w; }
+        else throw std::logic_error("unknown fm op " + op);
+        outFM(o, fm);
+        o << NS * NA;
+        for (size_t i = 0; i < NS; ++i) for (size_t j = 0; j < NA; ++j)
+            o << fm.getValue(S, A, toFactors(S, i), toFactors(A, j));
+        return true;
+    }
+    return false;
+}
+
 bool algebraCase(const std::string & kind, vio::Cursor & c, vio::Out & o) {
     if (ddnCase(kind, c, o)) return true;
+    if (matrixCase(kind, c, o)) return true;
     if (kind == "bfop") {           // op space lhs rhs -> tag, allocated size, written values
         std::string op = c.next();
         Factors space = readFactors(c);
